@@ -676,3 +676,78 @@ func ruleRecordedLocationFromImportText(p *Program, r *Report) {
 }
 
 func init() { register("C15", Rule{"R15e", ruleRecordedLocationFromImportText}) }
+
+// R15f: importing a module always switches the bundling context to that module.  Files of an imported module live in
+// the module cache; the recorders map their paths through createModulePath only while the context says which module
+// is being imported (isImportModule).  bundleModule must therefore hand back, on every path on which it recorded
+// the imported file, a context that carries the current-module value — also when the module happens to be the
+// script's own.
+func ruleModuleContextAlwaysSet(p *Program, r *Report) {
+	r.Begin("R15f", "module context on every recording path: every successful return of bundleModule that follows its archive write returns a context derived, on all incoming edges, from context.WithValue(…, currentModule, …) — a path that keeps the old context leaves the imported file's own imports to be mapped as if they belonged to the main module", 1)
+	defer r.End()
+	bm := p.Func("syntax", "bundleModule")
+	zc := p.Func("pkg/ctxfs", "ZipCreate")
+	if bm == nil || zc == nil {
+		r.Undecided("anchor", "syntax.bundleModule / ctxfs.ZipCreate not found", 0)
+		return
+	}
+	r.Fn(FnName(bm))
+	writes := callsTo(bm, zc)
+	if len(writes) == 0 {
+		r.Undecided("write", "bundleModule no longer writes to the archive", bm.Pos())
+		return
+	}
+	isModuleCtx := func(v ssa.Value) bool {
+		c, ok := v.(*ssa.Call)
+		if !ok {
+			return false
+		}
+		g := c.Call.StaticCallee()
+		if g == nil || g.String() != "context.WithValue" || len(c.Call.Args) < 3 {
+			return false
+		}
+		// the key: the currentModule constant of type bundleKey
+		return DependsOn(c.Call.Args[1], func(x ssa.Value) bool {
+			k, ok := x.(*ssa.Const)
+			return ok && strings.HasSuffix(k.Type().String(), "bundleKey")
+		})
+	}
+	var all func(v ssa.Value, depth int) bool
+	all = func(v ssa.Value, depth int) bool {
+		if depth > 6 {
+			return false
+		}
+		if ph, ok := v.(*ssa.Phi); ok {
+			for _, e := range ph.Edges {
+				if !all(e, depth+1) {
+					return false
+				}
+			}
+			return true
+		}
+		return isModuleCtx(v)
+	}
+	n := 0
+	ForEachInstr(bm, func(ins ssa.Instruction) {
+		ret, ok := ins.(*ssa.Return)
+		if !ok || len(ret.Results) < 2 || ret.Block() == bm.Recover {
+			return
+		}
+		after := false
+		for _, w := range writes {
+			if w.Block() == ret.Block() || Reaches(w.Block(), ret.Block(), false) {
+				after = true
+			}
+		}
+		if !after {
+			return
+		}
+		n++
+		r.Check(all(RetVal(ret, 0), 0), fmt.Sprintf("module-context~%d", n), "returns the context that names the imported module", "bundleModule returns, after recording the imported file, a context that does not (on every path) carry the current-module value: local imports of that file are then archived as files of the main module, at locations the bundle run does not look up", ret.Pos())
+	})
+	if n == 0 {
+		r.Undecided("returns", "no return of bundleModule follows its archive write", bm.Pos())
+	}
+}
+
+func init() { register("C15", Rule{"R15f", ruleModuleContextAlwaysSet}) }
